@@ -9,7 +9,7 @@ say() { echo "$@"; }
 for d in seeded/*/; do
   n=$(basename "$d"); p=${n%%-*}
   st=$(/venv/bin/python -c "import json;print(json.load(open('$d/meta.json')).get('status_on_current_tree','caught'))")
-  case "$st" in obsolete*) say "seeded $n -> skipped ($st)"; continue;; esac
+  case "$st" in obsolete*|out_of_scope*) say "seeded $n -> skipped ($st)"; continue;; esac
   props=$(/venv/bin/python -c "import json;print(' '.join(json.load(open('$d/meta.json'))['caught_by']) or '$p')")
   for q in $props; do
     out=$(selftest/mutant.py --tier $tier --patch "$d/patch.diff" $q 2>&1 | head -1)
